@@ -336,6 +336,7 @@ def stub_die(mods, W, H):
     nl.modules, nl.edges = mods, []
     die.netlist = nl
     die.bounding_box = Rectangle(center=Point(float(W) / 2, float(H) / 2), shape=Shape(float(W), float(H)))
+    die.width, die.height = float(W), float(H)
     return die
 
 
@@ -685,9 +686,9 @@ def solok_report(mods, ncells, a, x, y, die, rows, tol):
     for m in mods:
         for c in range(ncells):
             v = core.frac(a[m["name"]][c])
+            worst = max(worst, -v, v - 1)          # raw excess, reported even when within the tolerance
             if v < -tol or v > 1 + tol:
                 bad.append("a-range")
-                worst = max(worst, -v, v - 1)
         if not m["fixed"]:
             vx, vy = core.frac(x[m["name"]]), core.frac(y[m["name"]])
             s = max(W, H)
@@ -698,9 +699,9 @@ def solok_report(mods, ncells, a, x, y, die, rows, tol):
                 bad.append("fixed-centre-changed")
     for c in range(ncells):
         s = sum(core.frac(a[m["name"]][c]) for m in mods)
+        worst = max(worst, s - 1)
         if s > 1 + tol:
             bad.append("cell-sum")
-            worst = max(worst, s - 1)
     if rows is not None:
         for k, row in rows:
             for c, e in enumerate(row):
@@ -912,7 +913,7 @@ def run(ctx, out, replay=None):
     tempfile.tempdir = str(tmp)           # GEKKO(remote=False) creates its model directory with tempfile.mkdtemp
     try:
         quick = ctx.quick()
-        n_ext, n_rec, n_fix, n_run = (500, 150, 120, 6) if quick else (6000, 1500, 1500, 100)
+        n_ext, n_rec, n_fix, n_run = (600, 150, 150, 14) if quick else (6000, 1500, 1500, 120)
         out.rule = ("(a) synthetic: guillotine partitions of a die (2-7 cells, shuffled, sometimes sparse/overlapping), "
                     "1-8 modules mixing soft / movable hard (trunk + 0-3 branches, flip or not) / fixed (1-2 cells), solver "
                     "values satisfying the contract, with noise in fixed cells, exactly at / one ulp / 2^-30 next to 1 - t, "
@@ -965,5 +966,28 @@ def run(ctx, out, replay=None):
         if stats["runs"] and not stats["returned"]:
             ctx.notes.append("no real glbfloor run returned in this environment (solver failures: "
                              f"{stats['raised_kinds']}); only the synthetic correspondence was exercised")
+    finally:
+        tempfile.tempdir = old_tmp
+
+
+def run_oracle_only(ctx, out):
+    """The Coq development does not build: still run the implementation and the direct oracle."""
+    tmp = ctx.work / "gk"
+    tmp.mkdir(exist_ok=True)
+    old_tmp = tempfile.tempdir
+    tempfile.tempdir = str(tmp)
+    try:
+        rng = ctx.rng
+        cases = fr.load_corpus("C10") + [gen_run(rng) for _ in range(10)] + [gen_extract(rng) for _ in range(300)] + \
+            [gen_recenter(rng) for _ in range(100)] + [gen_fixrule(rng) for _ in range(100)]
+        for case in cases:
+            try:
+                obs = run_impl(case)
+                why = oracle(case, obs)
+            except Exception as e:
+                obs, why = {"crash": str(e)}, f"implementation raised {type(e).__name__}: {e}"
+            out.add_case(fr.tojson(case), nontrivial(case))
+            if why:
+                out.failures.append({"key": failure_key(case, why), "why": why, "case": fr.tojson(case), "impl": fr.tojson(obs)})
     finally:
         tempfile.tempdir = old_tmp
